@@ -82,7 +82,18 @@ func checkC07(c *Ctx) {
 		c.Unresolved("R2", "client.Start / upstream.removeClient / createClient")
 	} else {
 		ok := false
-		for _, a := range create.AnonFuncs {
+		// the connection's goroutine: a closure or a method started with go from the creating function
+		var goFns []*ssa.Function
+		eachInstr(create, func(_ *ssa.BasicBlock, _ int, in ssa.Instruction) {
+			if g, okg := in.(*ssa.Go); okg {
+				if f := funcValue(g.Call.Value); f != nil {
+					goFns = append(goFns, f)
+				} else if f := calleeFn(&g.Call); f != nil && f.Blocks != nil {
+					goFns = append(goFns, f)
+				}
+			}
+		})
+		for _, a := range goFns {
 			var s, r ssa.Instruction
 			eachInstr(a, func(_ *ssa.BasicBlock, _ int, in ssa.Instruction) {
 				if isCallToFn(in, start) {
@@ -92,13 +103,7 @@ func checkC07(c *Ctx) {
 					r = in
 				}
 			})
-			isGo := false
-			eachInstr(create, func(_ *ssa.BasicBlock, _ int, in ssa.Instruction) {
-				if g, okg := in.(*ssa.Go); okg && funcValue(g.Call.Value) == a {
-					isGo = true
-				}
-			})
-			if s != nil && r != nil && instrDominates(s, r) && isGo {
+			if s != nil && r != nil && instrDominates(s, r) {
 				ok = escapesWithout(posOf(s), func(x ssa.Instruction) bool { return x == r }) == nil
 			}
 		}
